@@ -91,7 +91,7 @@ func Drive(id, tier string, seed int64, root, exe string) int {
 	}
 	mem := p.MemMB
 	if mem == 0 {
-		mem = 8000
+		mem = 3500
 	}
 	type wres struct {
 		exit     int
@@ -214,8 +214,12 @@ func Drive(id, tier string, seed int64, root, exe string) int {
 			cf := filepath.Join(out, fmt.Sprintf("inflight.%d.json", s))
 			rb, _ := json.Marshal(ReplayFile{Property: id, Tier: tier, Seed: seed, What: "in flight at worker death", Case: inflight})
 			os.WriteFile(cf, rb, 0o644)
-			ctx, cancel := context.WithTimeout(context.Background(), 10*time.Minute)
-			cmd := exec.CommandContext(ctx, exe, "replay", cf, "-root", root)
+			ctx, cancel := context.WithTimeout(context.Background(), 5*time.Minute)
+			sh := fmt.Sprintf("ulimit -v %d; exec \"$0\" \"$@\"", mem*1024)
+			cmd := exec.CommandContext(ctx, "sh", "-c", sh, exe, "replay", cf, "-root", root)
+			if p.Race {
+				cmd = exec.CommandContext(ctx, exe, "replay", cf, "-root", root)
+			}
 			cmd.Run()
 			cancel()
 			code := cmd.ProcessState.ExitCode()
@@ -279,15 +283,15 @@ func Drive(id, tier string, seed int64, root, exe string) int {
 
 	wall := time.Since(start).Seconds()
 	cov := map[string]any{
-		"evaluations":         total.Evaluations,
-		"distinct_nontrivial": total.Nontrivial,
-		"rule":                p.Rule,
-		"samples":             total.Samples,
-		"observed":            total.Counters,
-		"inconclusive":        total.Inconclusive,
+		"evaluations":               total.Evaluations,
+		"distinct_nontrivial":       total.Nontrivial,
+		"rule":                      p.Rule,
+		"samples":                   total.Samples,
+		"observed":                  total.Counters,
+		"inconclusive":              total.Inconclusive,
 		"known_findings_attributed": total.Known,
 		"known_findings_reproduced": kids,
-		"shards":              nshards,
+		"shards":                    nshards,
 	}
 	if p.Exhaustive {
 		cov["exhaustive"] = true
